@@ -63,7 +63,7 @@ class Ctx:
 
     def validate(self, name, module, trace_file, cfg_text=None, heap="3g", timeout=1500, per_case=True, extra_env=None):
         """TLC trace validation + classification of REJECT / KNOWN lines (positions are 1-based lines)."""
-        tr = C.tlc_trace(name, module, trace_file, cfg_text=cfg_text, devs=self.devs, heap=heap, timeout=timeout, extra_env=extra_env)
+        tr = C.tlc_trace_sharded(name, module, trace_file, cfg_text, self.devs, timeout, heap, extra_env)   # (splits only big, case-structured traces)
         lines = C.read_lines(trace_file)
         if not tr["consumed"]:
             raise C.ToolError("trace %s not fully consumed by %s: %s" % (trace_file, module, tr["unconsumed"]))
